@@ -9,7 +9,7 @@ from ..selftest import Mutant
 
 ID = "C03"
 TECHNIQUE = "stream-kind writer/reader table (K6/K7), write-group pairing on all exits with the two-layer abort rule (K3), missing-keys gate (K2) (ast)"
-FLOOR = 16
+FLOOR = 22
 VF = "breezy/bzr/vf_repository.py"
 GC = "breezy/bzr/groupcompress_repo.py"
 KP = "breezy/bzr/knitpack_repo.py"
